@@ -88,7 +88,7 @@ Proof.
     + apply (Hres Hb t r). eapply nth_error_combine_in; eauto.
   - intros t c H. rewrite deliver_frame. auto.
   - intros Hb dn cur rest sent n Hf. exfalso. eapply Hnw'; eauto.
-  - intros Hl h1 x Hh. specialize (I10 Hl h1 x Hh). eapply Forall_impl; [|exact I10].
+  - intros Hl h1 x Hh. specialize (I10 (Hbr0 Hl) h1 x Hh). eapply Forall_impl; [|exact I10].
     intros a Ha. apply closed_entry_deliver. exact Ha.
   - intros Ht t c Hin. left. apply closed_entry_deliver. destruct (I11 (Htn0 Ht) t c Hin) as [H|H]; [exact H|]. auto.
   - intros Hb t n H. rewrite deliver_frame. apply deliver_result_cases in H; auto. destruct H as [[Hn H]|[i [H1 H2]]].
@@ -106,10 +106,11 @@ Qed.
 
 (* ---- FStartWrite None on a non-empty batch ---- *)
 Lemma cinv_begin th cx qu rn w clg can cc h tn lt br t0 rest :
+  (br = false -> tn = false) ->
   cinv (mkC th cx qu rn (FFlush (t0 :: rest)) w clg can cc h tn lt br) ->
-  cinv (mkC th cx qu rn (FWriting [] t0 rest 0 0) w clg can cc (h ++ [(t0, 0)]) tn (lt || tn) br).
+  cinv (mkC th cx qu rn (FWriting [] t0 rest 0 0) w clg can cc (h ++ [(t0, 0)]) tn lt br).
 Proof.
-  intros I.
+  intros Hbt I.
   assert (Hq0 : pc_of th t0 = Some PQueued) by (apply (ci_queued _ I); simpl; apply in_or_app; simpl; auto).
   pose proof (c_not_started_notin _ t0 _ I Hq0 eq_refl) as Hnotin. simpl in Hnotin. specialize (Hnotin (fun x => x)).
   assert (Hres0 : forall r, result_of th t0 = Some r -> False) by (intros r; unfold result_of; rewrite Hq0; discriminate).
@@ -127,7 +128,7 @@ Proof.
   - intros t c H. apply in_app_or in H. destruct H as [H|[H|[]]]; [auto|]. inversion H; subst. lia.
   - intros Hb dn cur rest' sent n Hf. inversion Hf; subst. simpl. split; [reflexivity|tauto].
   - intros Hl h0 x Hh. apply app_inj_tail in Hh. destruct Hh as [<- _].
-    apply orb_false_iff in Hl. destruct Hl as [_ Htn].
+    pose proof (Hbt Hl) as Htn.
     apply Forall_forall. intros [t c] Hin. destruct (I11 Htn t c Hin) as [H|[dn [rs [n H]]]]; [exact H|discriminate].
   - intros Ht t c Hin. apply in_app_or in Hin. destruct Hin as [Hin|[Hin|[]]].
     + destruct (I11 Ht t c Hin) as [H|[dn [rs [n H]]]]; [left; exact H|discriminate].
@@ -182,13 +183,14 @@ Qed.
 
 (* ---- FWriteRet None with more buffers to come ---- *)
 Lemma cinv_next th cx qu rn w clg can cc h tn lt br dn cur t' rest' sent n :
+  (br = false -> tn = false) ->
   cinv (mkC th cx qu rn (FWriting dn cur (t' :: rest') sent n) w clg can cc h tn lt br) ->
   cinv (mkC th cx qu rn (FWriting (dn ++ [cur]) t' rest' 0 (n + sent)) w clg can cc (h ++ [(t', 0)])
             (tn || torn_now sent (length (frame_of th cur)))
-            (lt || (tn || torn_now sent (length (frame_of th cur))))
+            lt
             (br || broken_now sent (length (frame_of th cur)) None)).
 Proof.
-  intros I.
+  intros Hbt I.
   destruct (ci_last _ I _ _ _ _ _ eq_refl) as [h0 Hh0]. simpl in Hh0.
   assert (Hin0 : In (cur, sent) h) by (subst h; apply in_or_app; simpl; auto).
   clear Hh0 h0.
@@ -222,7 +224,10 @@ Proof.
     + rewrite lens_of_app, list_sum_app'. simpl. lia.
     + intros d Hd. apply in_or_app. left. apply in_app_or in Hd. destruct Hd as [Hd|[<-|[]]]; [auto|]. congruence.
   - intros Hl h1 x Hh. apply app_inj_tail in Hh. destruct Hh as [<- _].
-    apply orb_false_iff in Hl. destruct Hl as [_ Htn]. apply orb_false_iff in Htn. destruct Htn as [Htn Htn'].
+    apply orb_false_iff in Hl. destruct Hl as [Hbf Hbn]. pose proof (Hbt Hbf) as Htn.
+    assert (Htn' : torn_now sent (length (frame_of th cur)) = false).
+    { assert (sent = length (frame_of th cur)) by (eapply broken_now_false; eauto). unfold torn_now.
+      destruct (Nat.ltb_spec sent (length (frame_of th cur))); [lia|]. apply andb_false_r. }
     apply Forall_forall. intros [t c] Hin. destruct (I11 Htn t c Hin) as [H|H]; [exact H|].
     destruct (Hcw t c H) as [-> ->]. unfold closed_entry. simpl. apply torn_now_false; assumption.
   - intros Ht t c Hin. apply orb_false_iff in Ht. destruct Ht as [Htn Htn'].
